@@ -2,7 +2,7 @@
 # usage: seedtry.sh Cxx X [props...]  -- quick tier only, against the sub-agent's delivered patch (/tmp/seedwt/Cxx_outN/patchX.diff) on a scratch copy of the CURRENT /repo/dataiter
 id=$1; x=$2; shift 2
 props=${*:-$id}
-case $x in A|B) o=_out;; C|D) o=_out2;; E|F) o=_out3;; G|H) o=_out4;; I|J) o=_out5;; K|L) o=_out6;; M|N) o=_out7;; O|P) o=_out8;; *) o=_out9;; esac
+case $x in A|B) o=_out;; C|D) o=_out2;; E|F) o=_out3;; G|H) o=_out4;; I|J) o=_out5;; K|L) o=_out6;; M|N) o=_out7;; O|P) o=_out8;; Q|R) o=_out9;; *) o=_out10;; esac
 patch=/tmp/seedwt/${id}${o}/patch$x.diff
 [ -f /verif/seeded/$id-$x/patch.diff ] && patch=/verif/seeded/$id-$x/patch.diff
 d=$(mktemp -d /tmp/seedtry_XXXX)
